@@ -6,6 +6,30 @@ import (
 
 var verifC22Key = CollectionData{ApiInterface: "jsonrpc", Type: "POST"}
 
+// two further collection keys that only C defines (A inherits both without overriding them); they differ in which
+// field carries the text, so any order-defining key that merely concatenates the fields cannot tell them apart
+var verifC22KeyAddon = CollectionData{ApiInterface: "jsonrpc", AddOn: "trace"}
+var verifC22KeyPath = CollectionData{ApiInterface: "jsonrpc", InternalPath: "trace"}
+
+// stand-in for the generated proto text String() of CollectionData in the symbolic run (same field order and
+// omission of empty fields as the compact proto text format); the native replay calls the real one
+func verifC22CollectionDataString(m *CollectionData) string {
+	s := ""
+	if m.ApiInterface != "" {
+		s += "api_interface:\"" + m.ApiInterface + "\" "
+	}
+	if m.InternalPath != "" {
+		s += "internal_path:\"" + m.InternalPath + "\" "
+	}
+	if m.Type != "" {
+		s += "type:\"" + m.Type + "\" "
+	}
+	if m.AddOn != "" {
+		s += "add_on:\"" + m.AddOn + "\" "
+	}
+	return s
+}
+
 type verifC22World struct {
 	edge   [3][3]bool // edge[i][j]: spec i imports spec j (0 = A, 1 = B, 2 = C)
 	unk    bool       // A also imports an unknown spec
@@ -13,6 +37,7 @@ type verifC22World struct {
 	enC    bool       // C's api enabled
 	collB  bool       // B's collection enabled
 	ovrB   bool       // A defines its own api "b" (overrides the inherited one)
+	extra  bool       // C has two more collections (other collection keys) that A does not define
 	lookup int        // number of getSpec calls (termination measure)
 }
 
@@ -41,6 +66,12 @@ func (w *verifC22World) spec(i int) Spec {
 		coll.Apis = []*Api{{Name: "b", Enabled: w.enB, ComputeUnits: 20}}
 	case 2:
 		coll.Apis = []*Api{{Name: "c", Enabled: w.enC, ComputeUnits: 30}}
+		if w.extra {
+			s.ApiCollections = []*ApiCollection{coll,
+				{Enabled: true, CollectionData: verifC22KeyPath, Apis: []*Api{{Name: "p", Enabled: true, ComputeUnits: 5}}},
+				{Enabled: true, CollectionData: verifC22KeyAddon, Apis: []*Api{{Name: "q", Enabled: true, ComputeUnits: 6}}}}
+			return s
+		}
 	}
 	s.ApiCollections = []*ApiCollection{coll}
 	return s
@@ -106,6 +137,7 @@ func VerifC22Expand() {
 	w.enB, w.enC = verif_nondet_bool("B.apiEnabled"), verif_nondet_bool("C.apiEnabled")
 	w.collB = verif_nondet_bool("B.collectionEnabled")
 	w.ovrB = verif_nondet_bool("A.overridesApiOfB")
+	w.extra = verif_nondet_bool("C.hasTwoMoreCollections")
 
 	root := w.spec(0)
 	depends := map[string]bool{"A": true}
@@ -122,7 +154,15 @@ func VerifC22Expand() {
 		return
 	}
 	verif_assert("loop-free-known-imports-expand", err == nil)
-	verif_assert("one-collection", len(root.ApiCollections) == 1)
+	if w.extra && w.edge[0][2] {
+		// the collections A inherits wholesale come after its own, in the order of their keys' text form - the same on every run
+		verif_assert("inherited-collections-appended-in-key-order", len(root.ApiCollections) == 3 &&
+			root.ApiCollections[1].CollectionData == verifC22KeyAddon && root.ApiCollections[2].CollectionData == verifC22KeyPath &&
+			len(root.ApiCollections[1].Apis) == 1 && len(root.ApiCollections[2].Apis) == 1)
+		verif_reach("inherited-collections")
+	} else if !(w.extra && viaBC(w)) {
+		verif_assert("one-collection", len(root.ApiCollections) == 1)
+	}
 	apis := root.ApiCollections[0].Apis
 	// B's API reaches A directly or through C (C's collection is always enabled); C's API directly or through B
 	viaB := w.edge[0][1] && w.collB
@@ -149,3 +189,6 @@ func VerifC22Expand() {
 	verif_assert("nothing-else", len(apis) == nA+nB+nC)
 	verif_reach("expanded")
 }
+
+// C's extra collections reach A only directly or through B importing C with B's ... (kept simple: direct import)
+func viaBC(w *verifC22World) bool { return w.edge[0][1] && w.edge[1][2] }
